@@ -58,11 +58,13 @@ def check(R, F, P, cfg):
         S = Super(P, f, opaque={getter, "utils::cold"})
         ps = tables.normal_paths(S)
         bad = []
+        kinds_seen = set()
         for p in ps:
             at_limit = None
             for a, t in p.literals:
                 if a[0] == "cmp" and a[1] == "Eq" and getter_of(a[2])[0] == getter and a[3] == ("const", limit):
                     at_limit = t
+            kinds_seen.add(at_limit)
             sets = [x for x in p.events if x.ci["k"] == "call" and x.ci["npath"].startswith("std::cell::Cell::<T>::set")]
             others = [x for x in effect_calls(p.events) if x not in sets]
             rv = p.retval()
@@ -83,7 +85,7 @@ def check(R, F, P, cfg):
                     okv = tgt.endswith("self." + cell) and _is_pm1(val, op, cell)
                     if not okv:
                         bad.append("stores %s into %s (required load(self.%s) %s 1 into self.%s)" % (fmt(val), tgt, cell, "+" if op == "Add" else "-", cell))
-        R.inst("R16.2", "guarded:%s" % short(fname), not bad and len(ps) == 2, "%s: %d paths; %s" % (short(fname), len(ps), bad or "Err without store at the limit %s, single +-1 store and Ok otherwise" % limit), where=f.span, cfg=cfg)
+        R.inst("R16.2", "guarded:%s" % short(fname), not bad and kinds_seen == {True, False}, "%s: %d paths; %s" % (short(fname), len(ps), bad or "Err without store at the limit %s, single +-1 store and Ok otherwise" % limit), where=f.span, cfg=cfg)
         # the getter reads that same cell masked with the count mask
         if getter not in getters_checked:
             getters_checked.add(getter)
@@ -121,8 +123,9 @@ def check(R, F, P, cfg):
         sets = [x for x in S.nodes if x.ci is not None and not x.inlined and x.ci["k"] == "call" and x.ci["npath"].startswith(("std::cell::Cell::<T>::set", "std::cell::Cell::<T>::replace"))]
         if not sets:
             continue
-        # set_bits is a shared helper: evaluate at the callers (it is inlined there); skip its own generic body
-        if f.npath == CM + "set_bits":
+        # shared private helpers (set_bits, a generic stepping helper ...): evaluated at their callers, where they are expanded
+        # with the actual masks / closures; their own generic body is skipped
+        if f.npath not in expect and any(cf.npath.startswith((CM, WCM)) and cf.npath != f.npath for (cf, _b, _c) in P.callers(f.id)):
             continue
         for x in sets:
             seen += 1
